@@ -463,6 +463,22 @@ class Summarizer:
             n = fr.ir(st.name)
             self.locals_all.add(n)
             self.emit(("bind", n, ("fresh", []), self.meta(fr, st, f"def {st.name}(...)")))
+            # A nested function is usually handed to a helper as a callback (e.g. `_conditional_expect(X, func,
+            # reg)`): summarise its body here as "may run, with unknown arguments"; its free variables are the
+            # enclosing method's locals.
+            if len(self.stack) < MAX_DEPTH and (fr.module, "<closure>" + st.name) not in self.stack:
+                outer = self.cur
+                self.cur = body = []
+                a = st.args
+                unknown = [("pos", ("fresh", [ANY])) for _ in a.posonlyargs + a.args]
+                kws = [(x.arg, ("fresh", [ANY]), None) for x in a.kwonlyargs]
+                self.stack.append((fr.module, "<closure>" + st.name))
+                try:
+                    self.inline(fr, fr.module, fr.owner_cls, st, fr.self_path if fr.owner_cls else None, unknown, kws, st, closure=fr, bind_self=False)
+                finally:
+                    self.stack.pop()
+                self.cur = outer
+                outer.append(("ite", body, []))
         elif isinstance(st, ast.Delete):
             for t in st.targets:
                 if isinstance(t, ast.Attribute) and self.is_self(fr, t.value):
@@ -1202,7 +1218,7 @@ class Summarizer:
         return ("fresh", self.all_arg_paths(pos, kws))
 
     # ---- inlining -------------------------------------------------------------------------------
-    def inline(self, fr, module, owner_cls, fn, self_path, pos, kws, node, closure=None):
+    def inline(self, fr, module, owner_cls, fn, self_path, pos, kws, node, closure=None, bind_self=True):
         key = (module, (owner_cls.name + "." if owner_cls else "") + fn.name)
         if key in self.stack or len(self.stack) >= MAX_DEPTH:
             self.notes.append(f"call not followed (depth/recursion): {key[1]} at {fr.module}:{node.lineno}")
@@ -1216,7 +1232,7 @@ class Summarizer:
             nf.localdefs.update(closure.localdefs)
         a = fn.args
         params = [x.arg for x in a.posonlyargs + a.args]
-        if owner_cls is not None and self_path is not None and params and params[0] in ("self", "cls"):
+        if bind_self and closure is None and owner_cls is not None and self_path is not None and params and params[0] in ("self", "cls"):
             params = params[1:]
         defaults = {}
         allpos = a.posonlyargs + a.args
